@@ -141,6 +141,27 @@ def main():
         terms.append("(%s, %s, %s, %s)" % (G.symtab_coq(syms), args, vf.coqlist(ps), ret)); mcases.append(id(c))
     mres = dict(zip(mcases, vf.coq_eval_strings(["model.Wrapper"], "fun c => let '(st, args, ps, r) := c in run_call st args ps r", terms, shard=600)))
 
+    # model of calls with PyTree parameters (model/PWrapper.v)
+    import gen_trees as T
+    def pstep_of(p, shape, dtype):
+        if "pytree" in p:
+            return {"kind": "tree", "leaf": p["pytree"]["leaf"], "structure": p["pytree"].get("structure"), "value": p["value"]}
+        return {"kind": "arr", "cat": p["cat"], "dim": p["dim"], "shape": shape, "dtype": dtype}
+    pterms, pcases = [], []
+    for c in cases:
+        if not (any("pytree" in p for p in c["params"]) or (c["ret"] and "pytree" in c["ret"])) or any("union" in p for p in c["params"]):
+            continue
+        steps = [pstep_of(p, c["shapes"].get(p["name"]), c["dtypes"].get(p["name"], "float32")) for p in c["params"]]
+        rstep = pstep_of(c["ret"], c["ret_shape"], c["ret_dtype"]) if c["ret"] else None
+        dims = []
+        for stp in steps + ([rstep] if rstep else []):
+            dims += [stp["dim"]] if stp["kind"] == "arr" else T.leaf_dims(stp["leaf"])
+        syms = [t.split("=")[-1].lstrip("#*_?") for d in dims for t in d.split()]
+        cd = dict(T.CAT_DTYPES); cd.update({k: v for k, v in cat_dtypes.items()})
+        pterms.append("(%s, %s, %s)" % (G.symtab_coq(syms), vf.coqlist(steps, lambda x: T.step_coq(x, cd)), vf.coqopt(rstep, lambda x: T.step_coq(x, cd))))
+        pcases.append(id(c))
+    pres = dict(zip(pcases, vf.coq_eval_strings(["model.PWrapper"], "fun c => let '(st, ps, r) := c in run_pcall st [] ps r", pterms, shard=400))) if pterms else {}
+
     ncalls, nontriv, samples = 0, set(), []
     for c in cases:
         names = [p["name"] for p in c["params"]]
@@ -177,6 +198,24 @@ def main():
                 if bool(r["has_cause"]) != want_cause:
                     R.violation("property", "__cause__ %s although jaxtyping_remove_typechecker_stack=%s: %s" % ("present" if r["has_cause"] else "absent", var["remove_stack"], desc),
                                 {"case": c, "variant": var, "result": r}, key=dict(key_base, kind="cause"))
+            if id(c) in pres:
+                m = pres[id(c)]
+                if m.startswith("TypeCheckError"):
+                    mm = re.fullmatch(r"TypeCheckError (\w+) blamed=(\S+) (S\{.*\} V\{.*\}) T\{(.*)\}", m)
+                    mstage, mbl, mbind = mm.group(1), mm.group(2), canon_model_bind(mm.group(3))
+                    mstructs = sorted(x.split("=")[0] for x in re.findall(r"(?:^|,)(\w+=)", mm.group(4))) if mm.group(4) else []
+                    mblname = None if mbl == "-" else names[int(mbl)]
+                    got = (o, r.get("stage"), r.get("blamed"), sorted(r.get("axes") or []), sorted(x.split("=")[0] for x in (r.get("structs") or [])))
+                    exp = ("TypeCheckError", mstage, mblname, sorted(mbind), mstructs)
+                    if got != exp:
+                        kind = "property" if (o != "TypeCheckError" or got[3:] != exp[3:]) else "correspondence"
+                        R.violation(kind, "error report of a call with PyTree parameters differs from the model: implementation %s, model %s: %s" % (got, exp, desc),
+                                    {"case": c, "variant": var, "impl": got, "model": exp}, key=dict(key_base, kind="pytree-report-vs-model"), no_input=(kind != "property"))
+                else:
+                    exp = {"ok": "ok", "raise:AnnotationError": "raise:AnnotationError"}.get(m, m)
+                    if o != exp:
+                        R.violation("property" if proved else "correspondence", "outcome of a call with PyTree parameters differs from the model: implementation %s, model %s: %s" % (o, exp, desc),
+                                    {"case": c, "variant": var, "impl": o, "model": exp}, key=dict(key_base, kind="pytree-outcome-vs-model"))
             if id(c) in mres:
                 m = mres[id(c)]
                 if m.startswith("TypeCheckError"):
@@ -204,7 +243,7 @@ def main():
                       rule="%d corpus + %d PRNG signatures (as C02, ~70%% ill-typed: failure at any parameter position or at the return value; unions with failing first alternative; same name as single and variadic axis; unbound symbolic names) x typeguard/beartype x remove-typechecker-stack on/off. "
                            "Oracles independent of the model: blamed parameter re-checked in a fresh context after its predecessors; listed bindings == live memo at the moment the message is built (spy on shape_str); __cause__ iff switch off; TypeCheckError is a TypeError and names the function. "
                            "listed bindings == what a fresh context holds after exactly the checks that passed before the failure (covers PyTree parameters with several array leaves, '?' axes and structure names: %d corpus + %d PRNG calls). "
-                           "Model oracle: stage, blamed parameter and bindings equal call_new (Coq). non-trivial = distinct ill-typed case" % (len(CORPUS), n, len(PYTREE_CORPUS), npt))
+                           "Model oracle: stage, blamed parameter and bindings equal call_new (Coq), for calls with PyTree parameters pcall_new (axes and structure names). non-trivial = distinct ill-typed case" % (len(CORPUS), n, len(PYTREE_CORPUS), npt))
     R.assumptions += ["error text parsed by regex: stage sentence, `parameter '...'`, name=value lines"]
     sys.exit(R.finish())
 
